@@ -457,7 +457,7 @@ _ADDED10 = {
            "(P6c) see C09; (I1, L3) registered here too.",
     "C12": " (T3, T3b) registered here too: the working directory is restored on every path.",
     "C13": " (P6c) see C09; (BN2) see C06 — the expanded `length:` of a vector is not narrowed silently while the shorthand is rejected; (O1) registered here too.",
-    "C14": " (PL2) see C01.",
+    "C14": " (PL2) see C01; (PF4) the Python NDJSON array converters produce a flat row-major list: `tolist()` only on a flattened array.",
     "C15": " (V3, V4) see C04.",
     "C18": " (I4) see C11; (LF1) a range loop that fills `X[i]` with a pointer fills every entry: no `continue` precedes the assignment.",
     "C20": " (T12) in generateImpl every return in front of the last back end's Generate call is the return of an error.",
